@@ -275,6 +275,12 @@ class Chemicals:
         return f"{type(self).__name__}([{', '.join(self.__dict__)}])"
 
 
+def _unpickle_compiled_chemicals(chemicals, groups):
+    self = CompiledChemicals(chemicals)
+    for name, (IDs, composition) in groups.items(): # Chemical groups are not derived from the chemicals
+        if name not in self._group_mol_compositions: self.define_group(name, IDs, composition)
+    return self
+
 @utils.read_only(methods=('append', 'extend', '__setitem__'))
 class CompiledChemicals(Chemicals):
     """
@@ -374,7 +380,9 @@ class CompiledChemicals(Chemicals):
                 'set_alias') + self.IDs
     
     def __reduce__(self):
-        return CompiledChemicals, (self.tuple,)
+        groups = {name: ([i.ID for i in self.__dict__[name]], self._group_mol_compositions[name].tolist())
+                  for name in self._group_mol_compositions}
+        return _unpickle_compiled_chemicals, (self.tuple, groups)
     
     def compile(self, skip_checks=False):
         """Do nothing, CompiledChemicals objects are already compiled.""" 
